@@ -36,11 +36,18 @@ class C10(Prop):
         "the content (C10_lossy, C10_lossy_full_holds, C10_lossy_value) = what the lossless accessors report (C10_lossy_agrees_with_lossless); "
         "each restriction of lossy_dom is shown necessary by a witness (C10_lossy_dom_needed, 12 fields). History lemmas about the code "
         "before the fixes this property led to: C10_prefix_epoch_refuted, C10_prefix_space_refuted, C10_prefix_arch_negation_refuted. "
+        "IMAGE of the reader: every text read with zero errors (any string, both allow_substvar settings) is the rendering of exactly one "
+        "LIBERAL layout (RelGrammarAll.afield: white space token lists incl. CR, any </>/= run or none as operator, any non-empty IDENT/':' run "
+        "as version, any '!'/name sequence in [...], any name | '!' ws name sequence in <...>, also empty, any IDENT/':' run in ${...}) whose tree "
+        "is the tree read and whose content, with the accessors' documented panics, is what the accessors report (C10_image, C10_image_sound, "
+        "C10_image_iff, C10_image_unique); the well-formed fields embed (C10_image_embeds); the lexer's outputs are characterised (C10_lexable); "
+        "on EVERY tree the accessor model of cone C11 (RelEdit.structure) yields the same entries/alternatives as racc (C10_acc_is_structure, C10_image_structure). "
         "Nothing is partial.")
     level_note = ("Model: Lexer (debian-control/src/relations.rs), fn parse and the read accessors of debian-control/src/lossless/relations.rs "
                   "(coq/model/RelLex.v, RelParse.v, RelAcc.v); lossy reader: debian-control/src/lossy/relations.rs as modelled by the cone of C14 "
                   "(coq/model/RelLossy.v, tied to the code by C14's streams and by this cone's rel-doc stream); "
-                  "specification: coq/model/RelGrammar.v (rrender, wf_rfield, rtoks, rtree_of, rcontent, lossy_dom).")
+                  "specification: coq/model/RelGrammar.v (rrender, wf_rfield, rtoks, rtree_of, rcontent, lossy_dom) and "
+                  "coq/model/RelGrammarAll.v (lexable, afield, arender, awf, atree_of, acontent, lib_of).")
     rule = ("rel-doc: systematic small fields (every combination of optional parts x trailing whitespace x position) + random inhabitants of "
             "RelGrammar.rfield in four whitespace styles (text rendered by the generator and re-rendered by the extracted rrender, wf_rfield and "
             "lossy_dom checked by the extracted definitions), implementation compared with rcontent; the lossy reader's value is compared with "
